@@ -145,7 +145,10 @@ pub fn check_optic_functoriality<B: StrictOps>(f: &P, g: &P, o: Arc<dyn PlainOpt
     let case = || json!({"f": f, "g": g, "optic": tag});
     loc.trans(6);
     if f.target_type() == g.source_type() {
-        let l = B::compose(f, g).and_then(|c| ap(&c.unwrap()));
+        let l = B::compose(f, g).and_then(|c| match c {
+            Some(c) => ap(&c),
+            None => Err(Fail::Malformed("compose refused matching types".into())),
+        });
         let r = ap(f).and_then(|x| ap(g).and_then(|y| B::compose(&x, &y)));
         match (l, r) {
             (Ok(l), Ok(Some(r))) => {
